@@ -8,7 +8,7 @@ for d in /tmp/mut/${tag}_out/m*; do
   [ -f "$d/patch.diff" ] || continue
   m=$(basename "$d")
   conf=$(tools/confirm_seed.sh /tmp/mut/$tag "$d" 2>&1 | tail -1)
-  verdict=$(tools/mutcheck.sh "$pid" "$d/patch.diff" 2>&1 | grep -E "VIOLATION|^OK |KNOWN-FINDING|BROKEN-CHECK|mutcheck rc" | tr '\n' ';' | cut -c1-900)
+  verdict=$(tools/mutcheck.sh "$pid" "$d/patch.diff" 2>&1 | grep -E "VIOLATION|^OK |KNOWN-FINDING|BROKEN-CHECK|mutcheck rc" | grep -v KNOWN-FINDING | tr "\n" ";" | cut -c1-900)
   echo "$m | CONFIRM $conf | CHECK $verdict" >> /tmp/mut/$tag.summary
 done
 echo done >> /tmp/mut/$tag.summary
